@@ -157,6 +157,28 @@ func c20seq(c *Ctx) {
 		if mp, fd := procState(path); !mp || fd != 1 {
 			c.R.Fail("proc-after-open", "%s: after Open: mapped=%v fds=%d", id, mp, fd)
 		}
+		if idx%4 == 0 {
+			// the segment as the input of merges that fail, are abandoned, or succeed:
+			// a merge is one more reader; it must not keep the segment alive
+			mout := c.Scratch.Path("c20m")
+			closed := make(chan struct{})
+			close(closed)
+			guard(c.R, id+" merges", func() {
+				if _, _, err := zx.Merge(segs(seg), zx.Drops([]map[uint32]bool{nil}, nil), mout, closed, nil); err == nil {
+					c.R.Fail("merge-not-cancelled", "%s: a merge with a closed channel succeeded", id)
+				}
+				if _, _, err := zx.Merge(segs(seg), zx.Drops([]map[uint32]bool{nil}, nil), mout+".dir-that-does-not-exist/x.zap", nil, nil); err == nil {
+					c.R.Fail("merge-bad-path", "%s: a merge into a directory that does not exist succeeded", id)
+				}
+				if idx%8 == 0 {
+					if _, _, err := zx.Merge(segs(seg), zx.Drops([]map[uint32]bool{nil}, nil), mout, nil, nil); err != nil {
+						c.R.Fail("merge-err", "%s: %v", id, err)
+					}
+				}
+			})
+			os.Remove(mout)
+			c.R.Inc("sequences_with_merges_of_the_segment", 1)
+		}
 		for k := 0; k < len(s); k++ {
 			sampleRead(c.R, fmt.Sprintf("%s before op %d", id, k), seg, m, rng)
 			var err error
